@@ -952,13 +952,10 @@ func (in *Interp) eval(e Expr, sc *scope, fr *frame) (Value, *ctl) {
 		start := 0
 		var cur Value
 		var c *ctl
-		if obj, pname, ok := in.inPlaceNumberTarget(v, sc, fr); ok {
-			// 自增 / 自减 on a numeric property: the number held by THIS object changes in
-			// place (and only this object's)
-			old, c := in.getProp(obj, pname)
-			if c != nil {
-				return nil, c
-			}
+		if get, set, ok := in.inPlaceNumberTarget(v, sc, fr); ok {
+			// 自增 / 自减: the number held by THIS property / variable changes in place (and
+			// only this one)
+			old := get()
 			args, c := in.evalArgs(v.Chain[0].Args, sc, fr)
 			if c != nil {
 				return nil, c
@@ -976,7 +973,7 @@ func (in *Interp) eval(e Expr, sc *scope, fr *frame) (Value, *ctl) {
 			if v.Chain[0].Name == "自减" {
 				d = -d
 			}
-			obj.Props[pname] = x + d
+			set(x + d)
 			cur, start = x+d, 1
 		} else {
 			cur, c = in.eval(v.Root, sc, fr)
@@ -1024,30 +1021,90 @@ func (in *Interp) eval(e Expr, sc *scope, fr *frame) (Value, *ctl) {
 	panic(fmt.Sprintf("ref: unknown expression %T", e))
 }
 
-// inPlaceNumberTarget - 以其P（自增：d） / 以X之P（自增：d） with X a plain variable holding an object
-func (in *Interp) inPlaceNumberTarget(v *MCall, sc *scope, fr *frame) (*ObjV, string, bool) {
+// inPlaceNumberTarget - 以其P（自增：d） / 以X之P（自增：d） with X a plain variable holding an
+// object / 以V（自增：d） with V a plain variable: accessors of the place that holds the number.
+// (A variable owns its number; a method input bound to a LITERAL or computed argument owns a
+// fresh one. An input bound to a caller's variable shares that variable's number - programs
+// that do so are not generated.)
+func (in *Interp) inPlaceNumberTarget(v *MCall, sc *scope, fr *frame) (func() Value, func(Value), bool) {
 	if len(v.Chain) == 0 || (v.Chain[0].Name != "自增" && v.Chain[0].Name != "自减") {
-		return nil, "", false
+		return nil, nil, false
+	}
+	prop := func(o *ObjV, name string) (func() Value, func(Value), bool) {
+		if _, has := o.Props[name]; !has {
+			return nil, nil, false
+		}
+		return func() Value { return o.Props[name] }, func(x Value) { o.Props[name] = x }, true
 	}
 	switch r := v.Root.(type) {
 	case *This:
 		if o, ok := fr.this.(*ObjV); ok {
-			if _, has := o.Props[r.Name]; has {
-				return o, r.Name, true
-			}
+			return prop(o, r.Name)
 		}
 	case *Member:
 		if rv, ok := r.Root.(*Var); ok {
 			if b := sc.lookup(rv.Name); b != nil {
 				if o, ok := b.v.(*ObjV); ok {
-					if _, has := o.Props[r.Name]; has {
-						return o, r.Name, true
-					}
+					return prop(o, r.Name)
 				}
 			}
 		}
+	case *Var:
+		if b := sc.lookup(r.Name); b != nil {
+			if _, isNum := b.v.(float64); isNum {
+				return func() Value { return b.v }, func(x Value) { b.v = x }, true
+			}
+		}
+	case *Index:
+		// an item of a list / dictionary reached through a side-effect-free path
+		if !purePath(r.Root) || !purePath(r.Idx) {
+			return nil, nil, false
+		}
+		cv, c := in.eval(r.Root, sc, fr)
+		if c != nil {
+			return nil, nil, false
+		}
+		iv, c := in.eval(r.Idx, sc, fr)
+		if c != nil {
+			return nil, nil, false
+		}
+		switch coll := cv.(type) {
+		case *ListV:
+			i, ok := intIndex(iv)
+			if !ok || i < 1 || i > len(coll.Items) {
+				return nil, nil, false
+			}
+			if _, isNum := coll.Items[i-1].(float64); !isNum {
+				return nil, nil, false
+			}
+			return func() Value { return coll.Items[i-1] }, func(x Value) { coll.Items[i-1] = x }, true
+		case *DictV:
+			k, ok := iv.(string)
+			if !ok {
+				return nil, nil, false
+			}
+			if _, isNum := coll.M[k].(float64); !isNum {
+				return nil, nil, false
+			}
+			return func() Value { return coll.M[k] }, func(x Value) { coll.M[k] = x }, true
+		}
 	}
-	return nil, "", false
+	return nil, nil, false
+}
+
+// purePath - variables, literals and index / member chains over them (no calls)
+func purePath(e Expr) bool {
+	switch x := e.(type) {
+	case *Var, *Num, *Str, *This:
+		return true
+	case *Grp:
+		return purePath(x.E)
+	case *Index:
+		return purePath(x.Root) && purePath(x.Idx)
+	case *Member:
+		return purePath(x.Root)
+	}
+	return false
 }
 
 func (in *Interp) evalArgs(as []Expr, sc *scope, fr *frame) ([]Value, *ctl) {
